@@ -101,7 +101,63 @@ func decodeMsgObs(mode, path string, recv codecMsg, in []byte) (obs string, dec 
 		return class, nil, 0
 	}
 	dec = gen.MsgFromGo(recv)
+	scribble(recv)
 	return fmt.Sprintf("ok(%s;left=%d)", dec.Render(false), left), dec, left
+}
+
+// scribble uses a decoded message the way a caller may: it edits every field in place (after the
+// observation has been taken).  A decoder that hands out storage it shares with later results
+// (a package-level empty-options value, a pooled buffer, a cached record) is exposed by the
+// decodes that follow; so is a decoder that leaves part of a reused receiver as it found it.
+func scribble(recv interface{}) {
+	opts := func(o *protocol.MessageOptions) {
+		if o == nil {
+			return
+		}
+		if o.Size != nil {
+			*o.Size = 987654
+		}
+		o.Chunk, o.Compressed = "scribbled-chunk", "scribbled"
+	}
+	rec := func(r interface{}) {
+		switch t := r.(type) {
+		case map[string]interface{}:
+			if t != nil {
+				t["~scribbled"] = int64(1)
+			}
+		case []interface{}:
+			for i := range t {
+				t[i] = "scribbled"
+			}
+		case []byte:
+			for i := range t {
+				t[i] = 0xEE
+			}
+		}
+	}
+	switch t := recv.(type) {
+	case *protocol.Message:
+		rec(t.Record)
+		opts(t.Options)
+		t.Tag, t.Timestamp = t.Tag+"~", t.Timestamp+1
+	case *protocol.MessageExt:
+		rec(t.Record)
+		opts(t.Options)
+		t.Tag = t.Tag + "~"
+	case *protocol.ForwardMessage:
+		for i := range t.Entries {
+			rec(t.Entries[i].Record)
+			t.Entries[i].Record = "scribbled"
+		}
+		opts(t.Options)
+		t.Tag = t.Tag + "~"
+	case *protocol.PackedForwardMessage:
+		for i := range t.EventStream {
+			t.EventStream[i] = 0xEE
+		}
+		opts(t.Options)
+		t.Tag = t.Tag + "~"
+	}
 }
 
 // onlyReader hides bytes.Reader's Seek method: stream sources are modelled as
